@@ -120,7 +120,12 @@ def runClosers (args : List String) : Option String := do
   let sched := (List.range 7).flatMap (fun _ => List.range c)
   let s := Knx.Once.run (Knx.Once.init c) sched
   let ret := (s.pcs.filter (· == Knx.Once.Pc.returned)).length
-  pure s!"dreq={s.dreqs} returned={ret}/{c} inbound={if s.doneClosed && s.joined then "closed" else "open"} send={if s.sockClosed then "err" else "ok"} second=ok"
+  -- Close calls that had returned at some point of the schedule while `done` was not yet closed / serve not
+  -- yet joined (Props.C10.Closers.returned_means_closed: there are none, on any schedule)
+  let early := ((List.range (sched.length + 1)).filter fun k =>
+    let p := Knx.Once.run (Knx.Once.init c) (sched.take k)
+    p.pcs.any (· == Knx.Once.Pc.returned) && !(p.doneClosed && p.joined)).length
+  pure s!"dreq={s.dreqs} returned={ret}/{c} early={early} inbound={if s.doneClosed && s.joined then "closed" else "open"} send={if s.sockClosed then "err" else "ok"} second=ok"
 
 def runLine (line : String) : String :=
   match line.splitOn " " with
